@@ -6,15 +6,16 @@ import impl, cfg1d, cfg2d
 from layers.fvm1d import layer_rhs1d, layer_mesh1d
 
 MODULE = 'Flowdyn.Props.C14'
-THEOREMS = core.theorems_in(['C14a.lean'], 'Flowdyn.C14') + ['Flowdyn.rhs_periodic_uniform_eq_cyc', 'Flowdyn.rhsCyc_shift', 'Flowdyn.rhsCyc_congr']
-AUDIT_IMPORTS = ['Flowdyn.Lemmas.Cyclic1D']
-PARTIAL = {"2D": "2D shift invariance (x and y) is checked bitwise on the implementation by the sweep; theorem pending the 2D model",
+THEOREMS = core.theorems_in(['C14a.lean'], 'Flowdyn.C14') + ['Flowdyn.rhs_periodic_uniform_eq_cyc', 'Flowdyn.rhsCyc_shift', 'Flowdyn.rhsCyc_congr', 'Flowdyn.C15.rhs_shift_x', 'Flowdyn.C15.rhs_shift_y']
+AUDIT_IMPORTS = ['Flowdyn.Lemmas.Cyclic1D', 'Flowdyn.Props.C15']
+PARTIAL = {
            "integrators": "lift through the integrators follows from shift-equivariance of the operator and of the global time step (min over cells); checked by the sweep"}
 LEVEL_NOTE = "1D: refinement of the periodic uniform pipeline to a cyclic (seam-free) pipeline for every n>=1, hence shift-equivariance for any reconstruction, cons2prim and pointwise flux"
 
 
 def layers(ctx):
-    return [layer_mesh1d, layer_rhs1d]
+    from layers.fvm2d import layer_rhs2d, layer_mesh2d
+    return [layer_mesh1d, layer_rhs1d, layer_mesh2d, layer_rhs2d]
 
 
 INTS = ['explicit', 'rk2', 'rk3ssp', 'rk4', 'lsrk25bb', 'implicit', 'cranknicolson', 'gear']
